@@ -445,12 +445,13 @@ func (r *Router) RunHandlers(ctx context.Context) error {
 		}
 
 		h.messagesCh = messages
+		// Stop() and Stopped() must be usable as soon as Started() is closed
+		h.stopFn = cancel
+		h.stopped = make(chan struct{})
+
 		h.started = true
 		close(h.startedCh)
 		verifhook.At("router.runhandlers.started", h)
-
-		h.stopFn = cancel
-		h.stopped = make(chan struct{})
 
 		go func() {
 			defer cancel()
